@@ -1124,7 +1124,8 @@ def unary(v: Variable, name, out=None):
             def f(x):
                 if not (bool(x >= -1) and bool(x <= 1)):
                     return C.NAN
-                return C.rfn('asin', x)
+                sg = x.t.sign() if x.special is None else None
+                return C.rfn('asin', x, sign='0+' if sg in ('+', '0+', '0') else ('0-' if sg in ('-', '0-') else None))
         elif name == 'acos':
             def f(x):
                 if not (bool(x >= -1) and bool(x <= 1)):
